@@ -132,10 +132,22 @@ func (w *World) exec(i int, s *Step) {
 		// an observation point for oracles that compare a neighbour's view with the DUT's tables:
 		// bytes the DUT has already written (a withdrawal caused by a timer just before this
 		// step, say) are delivered first, otherwise the view lags behind by the network delay
-		for k := 0; k < 20; k++ {
+		// ... and so are the bytes the neighbours have sent (a message cut into chunks with pauses
+		// may still be arriving)
+		for k := 0; k < 40; k++ {
+			pending := false
+			for _, q := range w.Peers {
+				if q.conn != nil && q.conn.pendingPeerTx > 0 && !q.conn.ClosedByDUT() && !w.Stalled() {
+					pending = true
+				}
+			}
 			latest := e.latestDeliveryToPeers()
-			if latest < e.Sim.Now() {
+			if !pending && latest < e.Sim.Now() {
 				break
+			}
+			if pending {
+				e.Sim.RunFor(us(5000))
+				continue
 			}
 			e.Sim.RunUntil(latest)
 			e.Sim.RunFor(us(1))
